@@ -177,9 +177,67 @@ pub fn install_crash_handler(on_crash: impl Fn(Option<PendingInfo>, &'static str
     }
 }
 
+// ------------------------------------------------------------------------------------------------
+// runaway-allocation guard: a global allocator that counts the bytes a worker thread allocates
+// within ONE pending batch of library calls. A batch normally allocates kilobytes to megabytes; a
+// library call that loops while pushing to a vector (e.g. on a cyclic structure) would otherwise
+// end in an out-of-memory kill of the whole engine, which is a broken check instead of a verdict.
+// ------------------------------------------------------------------------------------------------
+
+thread_local! {
+    static BATCH_BYTES: std::cell::Cell<u64> = const { std::cell::Cell::new(0) };
+    static REPORTING: std::cell::Cell<bool> = const { std::cell::Cell::new(false) };
+}
+
+/// cumulative bytes one batch may allocate before it is reported as diverging
+pub const BATCH_ALLOC_LIMIT: u64 = 4 << 30;
+
+pub struct GuardedAlloc;
+
+unsafe impl std::alloc::GlobalAlloc for GuardedAlloc {
+    unsafe fn alloc(&self, l: std::alloc::Layout) -> *mut u8 {
+        note_alloc(l.size() as u64);
+        unsafe { std::alloc::System.alloc(l) }
+    }
+    unsafe fn dealloc(&self, p: *mut u8, l: std::alloc::Layout) {
+        unsafe { std::alloc::System.dealloc(p, l) }
+    }
+    unsafe fn alloc_zeroed(&self, l: std::alloc::Layout) -> *mut u8 {
+        note_alloc(l.size() as u64);
+        unsafe { std::alloc::System.alloc_zeroed(l) }
+    }
+    unsafe fn realloc(&self, p: *mut u8, l: std::alloc::Layout, n: usize) -> *mut u8 {
+        note_alloc(n as u64);
+        unsafe { std::alloc::System.realloc(p, l, n) }
+    }
+}
+
+#[inline]
+fn note_alloc(n: u64) {
+    let _ = BATCH_BYTES.try_with(|b| {
+        let v = b.get().saturating_add(n);
+        b.set(v);
+        if v > BATCH_ALLOC_LIMIT && CUR_WORKER.try_with(|c| c.get()).unwrap_or(usize::MAX) != usize::MAX {
+            let already = REPORTING.try_with(|r| r.replace(true)).unwrap_or(true);
+            if !already {
+                let w = CUR_WORKER.with(|c| c.get());
+                if pending().since_ms[w % MAX_WORKERS].load(Ordering::SeqCst) != 0 {
+                    if let Some(f) = ON_CRASH.get() {
+                        let info = pending().what[w % MAX_WORKERS].try_lock().ok().and_then(|g| g.clone());
+                        f(info, "runaway allocation (more than 4 GB allocated inside one batch of library calls)");
+                    }
+                }
+                let _ = REPORTING.try_with(|r| r.set(false));
+                b.set(0);
+            }
+        }
+    });
+}
+
 /// mark that worker `w` starts a library call batch
 pub fn pending_begin(w: usize, what: PendingInfo) {
     CUR_WORKER.with(|c| c.set(w));
+    BATCH_BYTES.with(|b| b.set(0));
     let p = pending();
     let i = w % MAX_WORKERS;
     *p.what[i].lock().unwrap() = Some(what);
